@@ -254,6 +254,24 @@ func convertSlice[S, D signal.SignalTypes](conv func(*signal.Buffer[S], *signal.
 		ch = 1
 	}
 	frames := (n + ch - 1) / ch
+	if n%ch == 0 && n%2 == 0 && n > 0 {
+		// whole frames: the conversion is given handles that were sliced BEFORE anything was stored (the samples
+		// get there through the parent), so state cached per handle at allocation time ("still silent", "all
+		// within [-1,1]", ...) would be stale
+		srcRoot := signal.Alloc[S](signal.Allocator{Channels: ch, Length: frames, Capacity: frames})
+		dstRoot := signal.Alloc[D](signal.Allocator{Channels: ch, Length: frames, Capacity: frames})
+		src, dst := srcRoot.Slice(0, frames), dstRoot.Slice(0, frames)
+		for i, v := range in {
+			srcRoot.SetSample(i, v)
+			dstRoot.SetSample(i, dirty[D](i))
+		}
+		conv(src, dst)
+		out := make([]D, n)
+		for i := range out {
+			out[i] = dstRoot.Sample(i)
+		}
+		return out
+	}
 	src := signal.Alloc[S](signal.Allocator{Channels: ch, Length: 0, Capacity: frames})
 	dst := signal.Alloc[D](signal.Allocator{Channels: ch, Length: 0, Capacity: frames})
 	for i, v := range in {
